@@ -444,6 +444,70 @@ pub fn exec(s: &J) -> J {
                 }),
             );
         }
+        "value_api" => {
+            // the tree-level API of `Value`, which the byte-level functions fall back to for text
+            let v = &vals[0];
+            let w = vals.get(1).cloned();
+            let name = a.get("n").map(s_of).unwrap_or_default();
+            ev.insert(
+                "res".into(),
+                guard(|| {
+                    let optb = |o: Option<Vec<u8>>| match o { Some(b) => json!([bytes_to_j(&b)]), None => json!([]) };
+                    json!({"t":"valueapi",
+                        "ic": match v.get_by_name_ignore_case(&name) { Some(x) => json!([value_to_tree(x)]), None => json!([]) },
+                        "alen": match v.array_length() { Some(n) => json!([n]), None => json!([]) },
+                        "keys": match v.object_keys() { Some(x) => json!([value_to_tree(&x)]), None => json!([]) },
+                        "is": [v.is_scalar() as u8, v.is_object() as u8, v.is_array() as u8, v.is_string() as u8, v.is_number() as u8, v.is_null() as u8, v.is_boolean() as u8,
+                               v.is_i64() as u8, v.is_u64() as u8, v.is_f64() as u8],
+                        "i64": optb(v.as_i64().map(|x| x.to_be_bytes().to_vec())),
+                        "u64": optb(v.as_u64().map(|x| x.to_be_bytes().to_vec())),
+                        "f64": optb(v.as_f64().map(|x| x.to_bits().to_be_bytes().to_vec())),
+                        "bool": match v.as_bool() { Some(b) => json!([b as u8]), None => json!([]) },
+                        "str": optb(v.as_str().map(|s| s.as_bytes().to_vec())),
+                        "eq": match &w { Some(w) => json!([(v == w) as u8, v.eq_variant(w) as u8]), None => json!([]) },
+                        "vec": bytes_to_j(&v.to_vec()),
+                        "clone_eq": (v.clone() == *v) as u8,
+                        "default_is_null": (Value::default() == Value::Null) as u8})
+                }),
+            );
+        }
+        "rand_value" => {
+            ev.insert(
+                "res".into(),
+                guard(|| {
+                    let v = jsonb::rand_value();
+                    json!({"t":"rand","v":value_to_tree(&v),"vec":bytes_to_j(&v.to_vec())})
+                }),
+            );
+        }
+        "from_conv" => {
+            // the From conversions into Value, driven by a small tagged description
+            let spec = a["conv"].clone();
+            ev.insert(
+                "res".into(),
+                guard(|| {
+                    let v: Value = match spec["k"].as_str().unwrap() {
+                        "i8" => Value::from(spec["v"].as_i64().unwrap() as i8),
+                        "i16" => Value::from(spec["v"].as_i64().unwrap() as i16),
+                        "i32" => Value::from(spec["v"].as_i64().unwrap() as i32),
+                        "i64" => Value::from(spec["v"].as_i64().unwrap()),
+                        "u8" => Value::from(spec["v"].as_u64().unwrap() as u8),
+                        "u16" => Value::from(spec["v"].as_u64().unwrap() as u16),
+                        "u32" => Value::from(spec["v"].as_u64().unwrap() as u32),
+                        "u64" => Value::from(spec["v"].as_u64().unwrap()),
+                        "f32" => Value::from(f32::from_bits(spec["v"].as_u64().unwrap() as u32)),
+                        "bool" => Value::from(spec["v"].as_i64().unwrap() != 0),
+                        "str" => Value::from(s_of(&spec["v"])),
+                        "unit" => Value::from(()),
+                        "vec_i32" => Value::from(spec["v"].as_array().unwrap().iter().map(|x| x.as_i64().unwrap() as i32).collect::<Vec<i32>>()),
+                        "iter_str" => spec["v"].as_array().unwrap().iter().map(s_of).collect::<Value>(),
+                        "pairs" => spec["v"].as_array().unwrap().iter().map(|kv| (s_of(&kv[0]), kv[1].as_i64().unwrap())).collect::<Value>(),
+                        other => panic!("conv {other}"),
+                    };
+                    r_doc(&v)
+                }),
+            );
+        }
         "value_display" => {
             let v = &vals[0];
             ev.insert("res".into(), guard(|| r_str(format!("{}", v).as_bytes())));
